@@ -215,9 +215,11 @@ def _owner(e):
 
 
 def tempname_clash(w, pre):
-    """contents hold both X and X#new while X is replaced through the temporary name X#new"""
+    """the package needs both X and X#new (an entry, or a missing parent directory left out of the contents) while
+    X is replaced through the temporary name X#new"""
     names = {p for p, _ in w.entries()}
-    return sorted(p for p in names if p + "#new" in names and pre[p][0] not in (None, "dir"))
+    needed = set(w.SI)
+    return sorted(p for p in names if p + "#new" in needed and pre[p][0] not in (None, "dir"))
 
 
 def root_cause(w, pre):
